@@ -52,7 +52,13 @@ def scenario(rng, k, tier):
             # a second wildcard policy must be refused
             L.append(default_policy(rng, 0, ssrc_type=rng.choice([SSRC_ANY_OUT, SSRC_ANY_IN]), keys=[(keys[0], b"")]).line(6))
             L.append("add 1 6"); L.append("# W")
-        elif r < 0.66 and s in table:
+        elif r < 0.64 and has_wild:
+            # re-key the wildcard: clones (present and future) switch to the new key, explicit streams keep theirs
+            ki = rng.randrange(nkeys)
+            L.append(default_policy(rng, 0, ssrc_type=SSRC_ANY_OUT, keys=[(keys[ki], b"")]).line(8))
+            L.append("update 1 8"); L.append("# V")
+            wild_key = ki
+        elif r < 0.70 and s in table:
             ki = rng.randrange(nkeys)
             L.append(default_policy(rng, s, keys=[(keys[ki], b"")]).line(7))
             L.append("update 1 7"); L.append(f"# U {s:x} {ki}")
@@ -103,6 +109,8 @@ def monitor(script, c):
                              "detail": f"line {i-1}: status {st(i-1)} present={want_ok}"}); break
         if k == "W" and st(i - 1) == 0:
             hits.append({"what": "a second wildcard policy was accepted", "signature": "map-second-wildcard", "detail": f"line {i-1}"}); break
+        if k == "V" and st(i - 1) != 0:
+            hits.append({"what": "update of the wildcard policy failed", "signature": "map-wild-update-failed", "detail": f"line {i-1}"}); break
         if k == "U" and st(i - 1) != 0:
             hits.append({"what": "update of an existing explicit stream failed", "signature": "map-update-failed", "detail": f"line {i-1}"}); break
         if k == "N":
